@@ -19,6 +19,15 @@
 //	E|target|prec|usetz|zone|src|res   $.method(prec) on a string: dt | notrec | tzreq | badprec
 //	Q|usetz|zone|srcA|srcB|res         $[0].datetime() < == > $[1].datetime() on two strings (res as for X)
 //	                                   (target 5 = .datetime(); prec "n" = no argument)
+//	R|zone|prec|src|res|str            as P, with src = String() of a constructed value (round trip; family of C18)
+//
+// Modes (see modes.go):
+//
+//	dtvec                              the grid vectors (what check.sh consumes)
+//	dtvec vectors -seed N -extra M     the grid plus M pseudo-random vectors
+//	dtvec revec -file F                recompute the vectors whose inputs are listed in F
+//	dtvec props -prop C17|C18 -tier quick|thorough -seed N    property checks on the implementation's own outputs (props.go)
+//	dtvec replay -file F               re-run one property check from a replay file
 package main
 
 import (
@@ -270,7 +279,9 @@ func encRes(v types.DateTime, ok bool) (string, string) {
 	return encDT(v), enc(v.String())
 }
 
-func parseVec(z zoneDef, src string, prec int) {
+func parseVec(z zoneDef, src string, prec int) { parseVecK("P", z, src, prec) }
+
+func parseVecK(kind string, z zoneDef, src string, prec int) {
 	var res, str string
 	func() {
 		defer func() {
@@ -281,7 +292,7 @@ func parseVec(z zoneDef, src string, prec int) {
 		v, ok := types.ParseTime(ctxFor(z), src, prec)
 		res, str = encRes(v, ok)
 	}()
-	emit("P", z.id, strconv.Itoa(prec), enc(src), res, str)
+	emit(kind, z.id, strconv.Itoa(prec), enc(src), res, str)
 }
 
 func genParse() {
@@ -485,6 +496,7 @@ func genValues(vs []types.DateTime) {
 		}
 		emit("S", encDT(v), enc(v.String()), enc(string(b)))
 		unmarshalVec(kindOf(v), b)
+		parseVecK("R", zones[0], v.String(), -1)
 	}
 }
 
@@ -697,11 +709,13 @@ func cmp3(z zoneDef, useTZ bool, doc any, pLT, pEQ, pGT *path.Path) string {
 	switch {
 	case e1 != nil || e2 != nil || e3 != nil:
 		if e1 == nil || e2 == nil || e3 == nil {
-			panic("inconsistent errors")
+			fmt.Fprintf(os.Stderr, "inconsistent errors: %v %v %v\n", e1, e2, e3)
+			return "bad"
 		}
 		c := classify(e1)
 		if c != "tzreq" {
-			panic("unexpected error " + c)
+			fmt.Fprintf(os.Stderr, "unexpected error %s\n", c)
+			return "bad"
 		}
 		res = "3"
 	case lt == nil && eq == nil && gt == nil:
@@ -713,7 +727,8 @@ func cmp3(z zoneDef, useTZ bool, doc any, pLT, pEQ, pGT *path.Path) string {
 	case lt == false && eq == false && gt == true:
 		res = "1"
 	default:
-		panic(fmt.Sprintf("inconsistent comparison %v %v %v", lt, eq, gt))
+		fmt.Fprintf(os.Stderr, "inconsistent comparison %v %v %v\n", lt, eq, gt)
+		return "bad"
 	}
 	return res
 }
@@ -809,19 +824,23 @@ func execVec(z zoneDef, target int, prec string, useTZ bool, src string) {
 	case err != nil:
 		res = classify(err)
 		if strings.HasPrefix(res, "other:") {
-			panic(res)
+			fmt.Fprintln(os.Stderr, res)
+			res = "bad"
 		}
 	case len(r) == 1:
 		v, ok := r[0].(types.DateTime)
 		if !ok {
-			panic(fmt.Sprintf("not a datetime: %T", r[0]))
+			fmt.Fprintf(os.Stderr, "not a datetime: %T\n", r[0])
+			res = "bad"
+			break
 		}
 		if !inRange(z, v.GoTime()) {
 			return
 		}
 		res = encDT(v)
 	default:
-		panic("unexpected result length")
+		fmt.Fprintln(os.Stderr, "unexpected result length")
+		res = "bad"
 	}
 	u := "0"
 	if useTZ {
@@ -888,11 +907,7 @@ func genExec() {
 	}
 }
 
-func main() {
-	now := time.Now()
-	_, loff := now.Zone()
-	emit("N", strconv.FormatInt(now.Unix(), 10), strconv.Itoa(loff))
-	setupZones()
+func genGrid() {
 	genParse()
 	vs := dedup(values())
 	genValues(vs)
@@ -900,8 +915,18 @@ func main() {
 	genCasts(vs)
 	genCompare(vs)
 	genExec()
+}
+
+func header() {
+	now := time.Now()
+	_, loff := now.Zone()
+	emit("N", strconv.FormatInt(now.Unix(), 10), strconv.Itoa(loff))
+	setupZones()
+}
+
+func footer() {
 	out.Flush()
-	keys := []string{"N", "ZF", "ZT", "P", "S", "U", "C", "X", "E", "Q"}
+	keys := []string{"N", "ZF", "ZT", "P", "S", "U", "C", "X", "E", "Q", "R"}
 	total := 0
 	for _, k := range keys {
 		fmt.Fprintf(os.Stderr, "%s=%d ", k, counts[k])
